@@ -213,7 +213,7 @@ fn run_once(sc: &Scenario, collect: bool) -> Outcome {
             } else {
                 let mut ycol = 0u64;
                 let (r, y) = js::eval_budgeted(&mut ctx, part, sc.budget, 3_000_000, |n| {
-                    if boundaries && n % 3 == 0 {
+                    if boundaries && n % 3 == 0 && ycol < 5000 {
                         boa_gc::verif::collect_now();
                         ycol += 1;
                     }
